@@ -110,7 +110,23 @@ fn spki_of_pkcs8(pkcs8: &[u8]) -> Option<Vec<u8>> {
 
 pub fn run_cases(cases_path: &str, out_path: &str, bin: &str, workdir: &str) {
 	let seed = seed_from_env();
-	let cases = read_ndjson(cases_path);
+	let mut cases = read_ndjson(cases_path);
+	// thorough tier: random combinations of all option classes on top of the enumerated ones
+	if std::env::var("VERIF_TIER").map(|t| t == "thorough").unwrap_or(false) {
+		let mut r = Rng::new(seed ^ 0xc18);
+		let algs = ["$default", "ed25519", "ecdsa-p256", "ecdsa-p384", "rsa", "ecdsa-p521"];
+		let sans = ["dns", "ip4", "ip6", "nonascii", "dns-trailing-dot", "ip4-mapped"];
+		let countries = ["$default", "printable-all", "printable-question", "nonprintable-gt", "nonprintable-at", "nonascii", "empty"];
+		let cns = ["$default", "utf8", "empty", "printable-question"];
+		let names = [["$default", "$default"], ["leaf", "ca"], ["www.example.org", "example.org.ca"], ["site.leaf", "site.ca"], ["with space", "root ca"], ["a.b.c", "a.b.d"]];
+		let dirs = ["existing", "missing", "nested", "rerun-longer-first"];
+		for _ in 0..2500 {
+			let ns: Vec<&str> = (0..r.below(5)).map(|_| if r.chance(1, 12) { "nonascii" } else { *r.pick(&sans[..3]) }).collect();
+			let ns: Vec<&str> = if r.chance(1, 10) { vec![*r.pick(&sans)] } else { ns };
+			cases.push(json!({"grp": "cli-random", "alg": r.pick(&algs), "sans": ns, "country": if r.chance(2, 3) { "$default" } else { *r.pick(&countries) },
+				"cn": r.pick(&cns), "org": r.pick(&["$default", "utf8"]), "names": r.pick(&names), "dir": r.pick(&dirs), "clientAuth": r.chance(1, 2), "serverAuth": r.chance(1, 2)}));
+		}
+	}
 	let mut out = Out::create(out_path);
 	let be = {
 		let o = Command::new(bin).arg("--help").output().expect("run cli");
